@@ -191,7 +191,7 @@ def pow2_paths(draw):
 @st.composite
 def deep_paths(draw):
     """open paths whose hop depth from an end point crosses 2**15 or 2**16"""
-    n = draw(st.sampled_from([32766, 32767, 32768, 32769, 32770, 32771, 32775, 33001, 32768, 32769, 32770, 65537]))
+    n = draw(st.sampled_from([32768, 32769, 32770, 32771, 32775, 33001, 32768, 32769, 32770, 32767, 32766, 65537]))
     stride = draw(st.sampled_from([1, 1, 7, 10007]))
     while math.gcd(n, stride) != 1:
         stride += 1
@@ -310,8 +310,6 @@ def scaled(V, s):
 
 @st.composite
 def edge_tree_case(draw):
-    if draw(st.integers(0, 249)) == 249:
-        return draw(deep_edge_tree_case())
     mc = draw(any_mesh())
     mod = Model(mc)
     n, links = mod.links("vertex")
@@ -334,9 +332,9 @@ def deep_edge_tree_case(draw):
     end = draw(st.sampled_from([0, 0, n - 1, 3]))
     c = {"mesh": mc, "root": path_id(n, s, end), "avoid_boundary": draw(st.booleans()), "avoid": None, "avoid_mode": "none",
          "sort": draw(st.booleans())}
-    if draw(st.integers(0, 2)) == 0:
-        # one avoided edge close to the far end: the tree stops there
-        pos = n - 2 - draw(st.integers(0, 40)) if end != n - 1 else draw(st.integers(0, 40))
+    if draw(st.integers(0, 3)) == 0:
+        # one avoided edge at the far end: the tree stops there
+        pos = n - 2 - draw(st.integers(0, 2)) if end != n - 1 else draw(st.integers(0, 2))
         c["avoid"] = [sorted([path_id(n, s, pos), path_id(n, s, pos + 1)])]
         c["avoid_mode"] = "sparse"
     c.update(draw_forms(draw))
@@ -451,10 +449,9 @@ def cell_tree_case(draw):
 def forest_case(draw):
     what = draw(st.sampled_from(["edge", "edge", "face", "face", "cell"]))
     if what == "edge":
-        deep = draw(st.integers(0, 399)) == 399
-        mc = draw(deep_paths()) if deep else draw(any_mesh())
+        mc = draw(any_mesh())
         c = {"what": what, "mesh": mc, "forbidden": None, "mode": "none", "sort": draw(st.booleans()),
-             "twice": draw(st.booleans()) and not deep, "warm": draw(st.integers(0, 2)) == 0}
+             "twice": draw(st.booleans()), "warm": draw(st.integers(0, 2)) == 0}
         c.update(draw_forms(draw))
         return c
     if what == "face":
@@ -470,6 +467,14 @@ def forest_case(draw):
     c = {"what": what, "mesh": mc, "forbidden": None, "mode": "none", "sort": draw(st.booleans()),
          "twice": draw(st.booleans()), "warm": draw(st.integers(0, 2)) == 0}
     c.update(draw_forms(draw))
+    return c
+
+
+@st.composite
+def deep_forest_case(draw):
+    c = {"what": "edge", "mesh": draw(deep_paths()), "forbidden": None, "mode": "none", "sort": draw(st.booleans()), "twice": False, "warm": False}
+    c.update(draw_forms(draw))
+    c["recycle"] = 0
     return c
 
 
@@ -1448,6 +1453,9 @@ SUBCHECKS = [
     SubCheck("face_tree", face_tree_case(), fn_face_tree, quick=900, thorough=2000),
     SubCheck("cell_tree", cell_tree_case(), fn_cell_tree, quick=600, thorough=1500),
     SubCheck("forests", forest_case(), fn_forest, quick=900, thorough=2000, watchdog=(90, 180)),
+    # size regime: open paths whose hop depth from the root crosses 2**15 (2**16); seconds per case, hence their own small budgets
+    SubCheck("edge_tree_deep", deep_edge_tree_case(), fn_edge_tree, quick=16, thorough=40, watchdog=(120, 240)),
+    SubCheck("forests_deep", deep_forest_case(), fn_forest, quick=8, thorough=16, watchdog=(120, 240)),
 ]
 
 def kf_mst_dense_attribute(case, violation):
